@@ -3,6 +3,8 @@
 package addon2
 
 import (
+	"fmt"
+	"os"
 	"strings"
 	"time"
 
@@ -88,4 +90,18 @@ func OptBool(p *bool) string {
 		return obs.None
 	}
 	return obs.Some(obs.Bool(*p))
+}
+
+var dumpSeq int
+
+// Dump writes a case's Gallina term and description to $ADDON2_DUMP (debugging aid for rare disagreements;
+// nothing is written when the variable is not set).
+func Dump(observer string, desc any, coq string) {
+	dir := os.Getenv("ADDON2_DUMP")
+	if dir == "" || coq == "" {
+		return
+	}
+	dumpSeq++
+	_ = os.MkdirAll(dir, 0o755)
+	_ = os.WriteFile(fmt.Sprintf("%s/%s-%s-%d-%04d.txt", dir, observer, os.Getenv("VERIF_SEED"), os.Getpid(), dumpSeq), []byte(fmt.Sprintf("%v\n%s\n", desc, coq)), 0o644)
 }
